@@ -31,10 +31,10 @@ PROPS["C02"] = pbt(
           "random text excluded"),
     technique="property-based testing: grammar-generated files, construct-then-parse oracle (the AST), rapidcheck",
     level_text=("generated search: files are printed from a random AST of the conventional grammar, so the expected "
-                "sections/keys/values are known by construction; 160k (quick) / 5M (thorough) files over all 21 "
+                "sections/keys/values are known by construction; {q} (quick) / {t} (thorough) files over all 21 "
                 "delimiter x comment configurations, class floors enforced. Shows presence of violations, not absence."),
     level_note="trusts the grammar printer and the model in src/common (not the parser); C locale; tmpfs scratch",
-    quick={"cases": 480000},
+    quick={"cases": 960000},
     thorough={"cases": 16000000, "fuzz_runs": 1500000, "fuzz_jobs": 8},
     floors={"delim_nonblank": 0.10, "delim_blank": 0.10, "delim_mixed": 0.10, "delim_none": 0.05,
             "quoted": 0.15, "trailing_comment": 0.15, "continuation": 0.08, "duplicate_key": 0.10,
@@ -54,9 +54,9 @@ PROPS["C05"] = pbt(
     technique="property-based testing: metamorphic relation kv(F) = kv(F + comment lines) = kv(F - comment lines), plus AST oracle",
     level_text=("generated search with a metamorphic oracle: inserting or deleting comment lines must leave sections, "
                 "keys and values unchanged; all three variants are additionally compared with the AST the file was "
-                "printed from. 100k (quick) / 3M (thorough) file triples."),
+                "printed from. {q} (quick) / {t} (thorough) file triples."),
     level_note="trusts the grammar printer/model in src/common; comments and line numbers are excluded from the comparison (they legitimately move)",
-    quick={"cases": 400000},
+    quick={"cases": 800000},
     thorough={"cases": 8000000, "fuzz_runs": 800000, "fuzz_jobs": 8},
     floors={"indented_insert": 0.30, "second_comment_char": 0.30, "insert_after_entry": 0.30,
             "delim_nonblank": 0.10, "delim_blank": 0.08, "delim_mixed": 0.08, "delim_none": 0.04, "opt_python": 0.05, "opt_join": 0.05},
@@ -76,7 +76,7 @@ PROPS["C03"] = pbt(
                 "specification (visible values, nothing invented, multiplicities, key and section order, inputs "
                 "unchanged, result independent of freed inputs)."),
     level_note="trusts the specification M1-M7 as transcription of the property; objects are built only through the public API",
-    quick={"cases": 160000, "modes": [["exh", "3", str(k), "16"] for k in range(16)] + [["empties"]]},
+    quick={"cases": 400000, "modes": [["exh", "3", str(k), "16"] for k in range(16)] + [["empties"]]},
     thorough={"cases": 3000000, "fuzz_runs": 600000, "fuzz_jobs": 8, "modes": [["exh", "4", str(k), "16"] for k in range(16)] + [["empties"]]},
     floors={"base_reopens_section": 0.10, "override_only_groupless": 0.10, "base_nonleading_groupless": 0.08},
 )
@@ -94,9 +94,9 @@ PROPS["C01"] = pbt(
     technique="property-based testing: generated configuration trees against a reference model of the layered lookup, rapidcheck",
     level_text=("generated search: every tree is built from a model, so the expected merged configuration, the "
                 "sequence of consulted files (checked through the callback) and the NOFILE cases are known by "
-                "construction. 32k (quick) / 640k (thorough) trees with class floors on every shape the quantifier names."),
+                "construction. {q} (quick) / {t} (thorough) trees with class floors on every shape the quantifier names."),
     level_note="trusts the lookup model and reference merge in src/common/gen_tree.hpp; real /run and /etc only for the nothing-exists case",
-    quick={"cases": 240000},
+    quick={"cases": 480000},
     thorough={"cases": 5000000, "fuzz_runs": 400000, "fuzz_jobs": 8},
     floors={"masked_dropin": 0.10, "no_main": 0.15, "no_main_first_masked": 0.01, "empty_or_devnull_main": 0.08,
             "empty_main_sectioned_first_dropin": 0.01, "main_in_2_layers": 0.15, "byteorder_sensitive_names": 0.10,
@@ -116,9 +116,9 @@ PROPS["C13"] = pbt(
     technique="fault injection into generated files/trees: the injected line determines (code, path, line); rapidcheck",
     level_text=("fault enumeration by generation: each of the four malformed-line kinds is injected at generated "
                 "positions of generated files, alone and as any regular member of a layered tree; the expected error "
-                "code, file and line follow from the injection. 40k (quick) / 1M (thorough) cases; message table exhaustive."),
+                "code, file and line follow from the injection. {q} (quick) / {t} (thorough) cases; message table exhaustive."),
     level_note="trusts the injector (position rules of DESIGN 5.1) and the lookup model for the tree part",
-    quick={"cases": 300000},
+    quick={"cases": 600000},
     thorough={"cases": 6000000, "fuzz_runs": 800000, "fuzz_jobs": 8},
     floors={"kind_missing_bracket": 0.12, "kind_text_after_section": 0.12, "kind_empty_section_name": 0.12,
             "kind_missing_delimiter": 0.03, "kind_missing_delimiter_later": 0.03, "directly_after_entry": 0.07, "not_first_line": 0.30, "tree_member": 0.20, "in_dropin": 0.10},
@@ -157,7 +157,7 @@ PROPS["C12"] = pbt(
           "non-trivial = >=2 consulted files; distinct = tree shape + parameter shape"),
     technique="property-based differential testing between six entry points + replayed history fold, rapidcheck",
     level_text=("differential oracle between the public entry points on generated trees plus an independent "
-                "reconstruction of the result from the history with the public merge. 8k (quick) / 200k (thorough) "
+                "reconstruction of the result from the history with the public merge. {q} (quick) / {t} (thorough) "
                 "trees, 4-8 reads each."),
     level_note="trusts the lookup model for the expected member list; entry points are compared with each other, not with a model",
     quick={"cases": 160000},
@@ -177,10 +177,10 @@ PROPS["C16"] = pbt(
           "distinct = tree shape + entry point + rule set + offender index"),
     technique="property-based testing with a first-offender model over generated ownership/symlink assignments (chown as root), rapidcheck",
     level_text=("generated search over ownership/symlink assignments on generated trees, model = first offending "
-                "consulted file decides; 15k (quick) / 400k (thorough) cases, two reads each; requires root for the "
+                "consulted file decides; {q} (quick) / {t} (thorough) cases, two reads each; requires root for the "
                 "foreign-owner half (evidence says so if not)."),
     level_note="trusts the lookup model for the consultation order; runs as root in this sandbox (chown/lchown)",
-    quick={"cases": 200000},
+    quick={"cases": 400000},
     thorough={"cases": 2000000, "fuzz_runs": 200000, "fuzz_jobs": 8},
     floors={"has_offender": 0.30, "offender_is_dropin": 0.15, "offender_is_masked": 0.004, "symlink_rule": 0.30,
             "offender_not_first": 0.08},
@@ -200,9 +200,9 @@ PROPS["C17"] = pbt(
     technique="property-based testing: grammar-generated files with provenance carried by the AST, rapidcheck",
     level_text=("generated search; the AST records for every entry its physical lines, the comment lines before it "
                 "and the trailing comment of each of its lines, so every field of the extended value has a known "
-                "expected value. 100k (quick) / 3M (thorough) files."),
+                "expected value. {q} (quick) / {t} (thorough) files."),
     level_note="trusts the grammar printer; detached comment blocks may or may not be carried along (property leaves it open)",
-    quick={"cases": 500000},
+    quick={"cases": 1000000},
     thorough={"cases": 10000000, "fuzz_runs": 800000, "fuzz_jobs": 8},
     floors={"relative_name": 0.20, "detached_comment_block": 0.08, "trailing_comment_on_continuation": 0.03,
             "comment_block_2plus": 0.08, "continuation": 0.10},
@@ -221,9 +221,9 @@ PROPS["C15"] = pbt(
     technique="property-based testing with option-specific grammars and AST-derived expected value lists; probe reads for option effects; rapidcheck",
     level_text=("generated search over the two option-specific grammars and over option strings; expected value "
                 "lists follow from the AST, option effects (last occurrence wins) are observed through probe reads. "
-                "80k (quick) / 2.5M (thorough) cases."),
+                "{q} (quick) / {t} (thorough) cases."),
     level_note="empty items (a;;b) and values other than 0/1 are undocumented either way and not generated",
-    quick={"cases": 400000},
+    quick={"cases": 800000},
     thorough={"cases": 8000000, "fuzz_runs": 800000, "fuzz_jobs": 8},
     floors={"key_with_3plus_definitions|sub_join": 0.20, "reset_in_the_middle|sub_join": 0.10,
             "indented_line_with_delimiter|sub_python": 0.20, "repeated_item|sub_options": 0.20,
@@ -241,10 +241,10 @@ PROPS["C07"] = pbt(
           "of single-line entries). non-trivial = >=2 key-bearing sections, or a quoted value, comment or multi-line "
           "value; distinct = (section,key) sequence or file skeleton + tags"),
     technique="property-based round-trip testing (write -> read) over setter histories and parsed files, rapidcheck",
-    level_text=("generated search with a round-trip oracle over the write-safe domain of DESIGN 5.4; 100k (quick) / "
-                "3M (thorough) objects, all six tag combinations, both ways of building an object."),
+    level_text=("generated search with a round-trip oracle over the write-safe domain of DESIGN 5.4; {q} (quick) / "
+                "{t} (thorough) objects, all six tag combinations, both ways of building an object."),
     level_note="domain restricted to values with an unambiguous textual form (DESIGN 5.4); section order and key-less sections are not compared",
-    quick={"cases": 400000},
+    quick={"cases": 800000},
     thorough={"cases": 8000000, "fuzz_runs": 800000, "fuzz_jobs": 8},
     floors={"reopened_section_by_setters": 0.10, "groupless_after_section": 0.10, "overwritten_key": 0.15,
             "read_quoted": 0.08, "comments": 0.15, "d_space": 0.25, "d_eq": 0.25, "d_colon": 0.25, "c_hash": 0.40,
@@ -261,10 +261,10 @@ PROPS["C11"] = pbt(
           "intervals and at the end. evaluations = commands; non-trivial = run creates >8 entries, overwrites a key, "
           "or uses both spellings of one section; distinct = hash of the command/section sequence"),
     technique="stateful (model-based) property testing against a reference ordered map, rapidcheck",
-    level_text=("model-based testing of call histories: 40k (quick) / 1.5M (thorough) runs, ~1M / 40M commands; the "
+    level_text=("model-based testing of call histories: {q} (quick) / {t} (thorough) runs of up to ~60 commands; the "
                 "model is the ordered map of DESIGN 6.1."),
     level_note="int getter results are only compared for plain decimal literals (conversions are C09's subject)",
-    quick={"cases": 300000},
+    quick={"cases": 600000},
     thorough={"cases": 6000000, "fuzz_runs": 800000, "fuzz_jobs": 8},
     floors={"grew_past_8_entries": 0.15, "overwrote_key": 0.20, "both_section_spellings": 0.20,
             "start_parsed file": 0.15, "start_merge result": 0.08},
@@ -281,9 +281,9 @@ PROPS["C10"] = pbt(
           "after; same for the merge partner. evaluations = queries; non-trivial = the sequence contains a failing "
           "getter, a boolean getter on text with an upper-case letter, or a merge; distinct = hash of the query sequence"),
     technique="property-based testing of read-only call sequences with a before/after dump invariant, rapidcheck",
-    level_text="generated search over objects and query sequences with a state-invariance oracle; 60k (quick) / 2M (thorough) objects, ~20 queries each.",
+    level_text="generated search over objects and query sequences with a state-invariance oracle; {q} (quick) / {t} (thorough) objects, ~20 queries each.",
     level_note="the dump is taken through the public API and the writer only",
-    quick={"cases": 300000},
+    quick={"cases": 900000},
     thorough={"cases": 6000000, "fuzz_runs": 500000, "fuzz_jobs": 8},
     floors={"failing_getter": 0.20, "bool_getter_on_mixed_case": 0.15, "used_in_merge": 0.20, "key_without_value": 0.10},
 )
@@ -311,7 +311,7 @@ PROPS["C08"] = pbt(
                 "Thorough enumerates all 2^32 values of int32, uint32 and float (reported under exhaustive_subspaces "
                 "with exact counts); 64-bit types are sampled: boundary families + 2M/200M random patterns."),
     level_note="exhaustive loops run against an -O2 build of /repo's sources without sanitizers; the sampled parts under ASan+UBSan",
-    quick={"cases": 40000, "modes": _c08_modes(256, 4)},
+    quick={"cases": 120000, "modes": _c08_modes(256, 4)},
     thorough={"cases": 600000, "modes": _c08_modes(1, 16)},
     floors={"subnormal_double": 0.10, "file_roundtrip": 0.30},
 )
@@ -329,11 +329,11 @@ PROPS["C09"] = pbt(
           "every typed getter. non-trivial = literal near a limit / wider than 32 bits / not decimal / not an exact "
           "expansion / text that is no boolean word; distinct = hash of the literal"),
     technique="property-based testing against exact reference arithmetic (__int128, big-decimal construction of float literals) + bounded-exhaustive boolean strings, rapidcheck",
-    level_text=("generated literals with exactly known answers, no second strtod as reference; 400k (quick) / 12M "
+    level_text=("generated literals with exactly known answers, no second strtod as reference; {q} (quick) / {t} "
                 "(thorough) literals plus all 93k / 4.2M short strings through the boolean getter (exhaustive for the "
                 "stated alphabet and length)."),
     level_note="overflowing float literals carry no claim beyond 'not success with a finite number' and are not generated; literals have nothing after them",
-    quick={"cases": 1600000, "modes": [["boolexh", "3", str(k), "4"] for k in range(4)]},
+    quick={"cases": 4000000, "modes": [["boolexh", "3", str(k), "4"] for k in range(4)]},
     thorough={"cases": 12000000, "modes": [["boolexh", "4", str(k), "16"] for k in range(16)]},
     floors={"out_of_int32_range|sub_integer": 0.30, "octal|sub_integer": 0.15, "hex|sub_integer": 0.20,
             "negative_for_unsigned|sub_integer": 0.10, "bool_djb2_neighbour|sub_bool": 0.20,
@@ -354,10 +354,10 @@ PROPS["C14"] = pbt(
           "distinct = (kind, length, path)"),
     technique="boundary-value grid enumeration + property-based sampling with position-dependent fillers and byte-equality oracle, rapidcheck",
     level_text=("every cell of the kind x length x API-path grid is visited in both tiers (complete for the grid, "
-                "reported under exhaustive_subspaces); 3k (quick) / 80k (thorough) sampled cells with varying fillers "
+                "reported under exhaustive_subspaces); {q} (quick) / {t} (thorough) sampled cells with varying fillers "
                 "and neighbouring lengths; ASan+UBSan watch the buffers."),
     level_note="names longer than NAME_MAX / paths longer than PATH_MAX cannot be created: for those cells only 'rejected cleanly, no content' is testable",
-    quick={"cases": 12000, "modes": [["grid", str(k), "16"] for k in range(16)]},
+    quick={"cases": 36000, "modes": [["grid", str(k), "16"] for k in range(16)]},
     thorough={"cases": 80000, "modes": [["grid", str(k), "16"] for k in range(16)]},
     floors={},
 )
@@ -380,8 +380,8 @@ PROPS["C20"] = pbt(
           "hash of (scenario, entry point, fault, index, tree shape / command log)"),
     technique="fault injection over generated scenarios with LeakSanitizer recoverable checks per forked case, heap-fill differential, valgrind sample; rapidcheck",
     level_text=("fault enumeration by generation: every scenario ends with an explicit leak check in its own process, "
-                "so a leak on any failure path is attributed to the case that caused it and can be shrunk; 24k "
-                "(quick) / 1M (thorough) scenarios, each run under two heap-fill patterns."),
+                "so a leak on any failure path is attributed to the case that caused it and can be shrunk; {q} "
+                "(quick) / {t} (thorough) scenarios, each run under two heap-fill patterns."),
     level_note="allocation-failure paths are not injected; LeakSanitizer reachability semantics (memory reachable from library statics is not a leak)",
     quick={"cases": 32000},
     thorough={"cases": 1000000},
@@ -432,7 +432,7 @@ PROPS["C19"] = pbt(
           "sanitizer report from the tool. evaluations = tool runs; non-trivial = tree with group-less keys, >=2 files "
           "or a malformed file; distinct = tree shape + options"),
     technique="property-based differential testing: tool output (subprocess on a pty) vs the library on the same generated tree, rapidcheck",
-    level_text="differential oracle between econftool and the library on generated trees; 3k (quick) / 100k (thorough) trees, 1-2 tool runs each.",
+    level_text="differential oracle between econftool and the library on generated trees; {q} (quick) / {t} (thorough) trees, 1-2 tool runs each.",
     level_note="the tool is compiled from /repo/util/econftool.c with ASan/UBSan against the same library objects; keys and values avoid ' = ' so that the output parses unambiguously",
     quick={"cases": 9600},
     thorough={"cases": 200000},
@@ -454,8 +454,8 @@ PROPS["C18"] = pbt(
     technique="generated thread programs under ThreadSanitizer (happens-before race detection) + serial-vs-concurrent differential; schedules are sampled, not owned; rapidcheck",
     level_text=("exploration with sampled schedules: ThreadSanitizer flags any two unsynchronised conflicting accesses "
                 "that occur in one run regardless of their actual interleaving, which is what matters for a library "
-                "without locks; result-changing interleavings without a data race would be found only by luck. 320 "
-                "(quick) / 10k (thorough) program sets."),
+                "without locks; result-changing interleavings without a data race would be found only by luck. {q} "
+                "(quick) / {t} (thorough) program sets."),
     level_note="WEAK: the harness does not own the schedule; error location (documented global) is excluded from the digests",
     quick={"cases": 12000, "max_size": 80},
     thorough={"cases": 200000},
